@@ -241,11 +241,20 @@ func runC11(s *core.Sim, tier string) RunInfo {
 		before := invalidCount[w.Hosts[0].ID()]
 		vmu.Unlock()
 		sent = append(sent, sentMsg{fmt.Sprintf("%s/%s", payload, verdict), payload, verdict, data, hh})
+		// some headers are broadcast by B itself (the local path pre-sets ValidatorData and
+		// skips decoding): the same verdicts apply, and a refused one makes Broadcast fail
+		local := hh != nil && verifierSet && s.Tape.Coin("local-broadcast", 1, 4)
 		var perr error
-		s.Do("publish", time.Minute, func() { perr = topicA.Publish(ctx, data) })
-		if perr != nil {
-			s.Aborted = "publish: " + perr.Error()
-			break
+		if local {
+			sent[len(sent)-1].desc += "/local"
+			s.Do("broadcast", time.Minute, func() { perr = subB.Broadcast(ctx, hh) })
+			s.Probe("local-broadcast")
+		} else {
+			s.Do("publish", time.Minute, func() { perr = topicA.Publish(ctx, data) })
+			if perr != nil {
+				s.Aborted = "publish: " + perr.Error()
+				break
+			}
 		}
 		// one message at a time; heartbeats and validation run in virtual time
 		s.Quiesce(1500 * time.Millisecond)
@@ -290,6 +299,20 @@ func runC11(s *core.Sim, tier string) RunInfo {
 		vmu.Unlock()
 		at := map[string]string{"payload": payload, "verdict": verdict, "want": want}
 		desc := fmt.Sprintf("message %d (%s payload, verifier says %s)", i, payload, verdict)
+		if local {
+			at["local"] = "true"
+			desc += " broadcast by B itself"
+			if (want == "accept") != (perr == nil) {
+				s.Violate("local-broadcast-verdict", at, "%s: Broadcast returned %v", desc, perr)
+				continue
+			}
+			if want != "accept" {
+				if delivered > 0 || atB != nil || atC != nil {
+					s.Violate("invalid-message-delivered", at, "%s: refused locally but deliver=%d B=%v C=%v", desc, delivered, atB, atC)
+				}
+				continue
+			}
+		}
 		if validated == 0 {
 			s.Probe("message-not-seen-by-B")
 			continue
